@@ -308,31 +308,87 @@ def _do_case(args):
     return i, r
 
 
+_POOLS = {}
+CASE_TIMEOUT = int(os.environ.get("VERIF_CASE_TIMEOUT", "900"))
+
+
+def _get_pool(mod, jobs):
+    key = (mod, jobs)
+    ex = _POOLS.get(key)
+    if ex is None:
+        ex = cf.ProcessPoolExecutor(max_workers=jobs, initializer=_init_worker, initargs=(mod,))
+        _POOLS[key] = ex
+    return ex
+
+
+def _drop_pool(mod, jobs):
+    ex = _POOLS.pop((mod, jobs), None)
+    if ex is not None:
+        _kill(ex)
+
+
+def _kill(ex):
+    try:
+        for p in list(getattr(ex, "_processes", {}).values()):
+            p.kill()
+    except Exception:
+        pass
+    try:
+        ex.shutdown(wait=False, cancel_futures=True)
+    except Exception:
+        pass
+
+
+def shutdown_pools():
+    for key in list(_POOLS):
+        _drop_pool(*key)
+
+
+_CRASH = {"lines": [], "impl": [], "nontrivial": True, "tags": ["crash"], "mutated": None, "dt": 0,
+          "oracle": "interpreter crashed or hung while running this case"}
+
+
+def _lane(mod, items, results):
+    """Sequential lane with a private 1-worker pool: when the worker dies (or a case
+    hangs), the culprit is the first case of the lane that has no result yet."""
+    pos = 0
+    while pos < len(items):
+        ex = cf.ProcessPoolExecutor(max_workers=1, initializer=_init_worker, initargs=(mod,))
+        futs = [(i, ex.submit(_do_case, (i, c))) for i, c in items[pos:]]
+        advanced = len(futs)
+        for k, (i, f) in enumerate(futs):
+            try:
+                _, r = f.result(timeout=CASE_TIMEOUT)
+                results[i] = r
+            except (BrokenProcessPool, cf.TimeoutError, cf.CancelledError):
+                results[i] = dict(_CRASH)
+                advanced = k + 1
+                break
+        _kill(ex)
+        pos += advanced
+
+
 def run_cases(mod, cases, jobs=NWORKERS):
-    """Run all cases in worker processes; isolates interpreter crashes."""
+    """Run all cases in worker processes (persistent pool); isolates interpreter crashes."""
     results = [None] * len(cases)
     todo = list(enumerate(cases))
     if not todo:
         return results
+    jobs = max(1, jobs)
     try:
-        with cf.ProcessPoolExecutor(max_workers=min(jobs, max(1, len(todo))),
-                                    initializer=_init_worker, initargs=(mod,)) as ex:
-            chunk = max(1, min(32, len(todo) // (jobs * 4) or 1))
-            for i, r in ex.map(_do_case, todo, chunksize=chunk):
-                results[i] = r
-    except BrokenProcessPool:
-        pass
+        ex = _get_pool(mod, jobs)
+        chunk = max(1, min(32, len(todo) // (jobs * 4) or 1))
+        for i, r in ex.map(_do_case, todo, chunksize=chunk, timeout=max(CASE_TIMEOUT, 4 * len(todo))):
+            results[i] = r
+    except (BrokenProcessPool, cf.TimeoutError):
+        _drop_pool(mod, jobs)
     missing = [(i, c) for i, c in todo if results[i] is None]
-    for i, c in missing:  # one process per case: find the crasher(s)
-        try:
-            with cf.ProcessPoolExecutor(max_workers=1, initializer=_init_worker,
-                                        initargs=(mod,)) as ex:
-                _, r = ex.submit(_do_case, (i, c)).result(timeout=600)
-                results[i] = r
-        except (BrokenProcessPool, cf.TimeoutError):
-            results[i] = {"lines": [], "impl": [], "oracle":
-                          "interpreter crashed or hung while running this case",
-                          "nontrivial": True, "tags": ["crash"], "mutated": None, "dt": 0}
+    if missing:
+        # isolation mode: parallel sequential lanes, each with its own 1-worker pool
+        nl = min(jobs, len(missing))
+        lanes = [missing[k::nl] for k in range(nl)]
+        with cf.ThreadPoolExecutor(max_workers=nl) as tp:
+            list(tp.map(lambda lane: _lane(mod, lane, results), lanes))
     return results
 
 
@@ -570,6 +626,7 @@ def run_check(pid, tier="quick", replay=None):
     with open(os.path.join(evdir, f"{pid}.json"), "w") as f:
         json.dump(ev, f, indent=1, default=str)
 
+    shutdown_pools()
     for l in log:
         print("#", l)
     print(f"# {pid} tier={tier} seed={seed} cases={len(cases)} nontrivial={len(nontrivial)} "
